@@ -293,7 +293,56 @@ fn mutate_psbt(w: &RWorld, rng: &mut Rng, psbt: &mut Psbt, i: usize) -> &'static
     which
 }
 
+/// PSBT with one taproot (or p2wsh) input whose leaf / witness script nests deep through one
+/// child position, with the signature the finalizer needs
+fn deep_psbt(w: &RWorld, shape: usize, depth: usize, tap: bool) -> Option<(Vec<u8>, &'static str)> {
+    let ds = DummySat { w, keys: !0, pre: !0, lt: 0, seq: 0, big: vec![] };
+    let (sc, label) = deep_script(w, if tap { 3 } else { 2 }, shape, depth);
+    let script = ScriptBuf::from_bytes(sc);
+    let mut inp = bitcoin::psbt::Input::default();
+    let spk = if tap {
+        let internal = w.w.pks[1].inner.x_only_public_key().0;
+        let info = TaprootBuilder::new().add_leaf(0, script.clone()).ok()?.finalize(&w.secp, internal).ok()?;
+        let cb = info.control_block(&(script.clone(), LeafVersion::TapScript))?;
+        inp.tap_scripts.insert(cb, (script.clone(), LeafVersion::TapScript));
+        inp.tap_internal_key = Some(internal);
+        inp.tap_merkle_root = info.merkle_root();
+        let lh = bitcoin::TapLeafHash::from_script(&script, LeafVersion::TapScript);
+        inp.tap_script_sigs.insert((w.w.pks[0].inner.x_only_public_key().0, lh), ds.schnorr());
+        ScriptBuf::new_p2tr_tweaked(info.output_key())
+    } else {
+        inp.witness_script = Some(script.clone());
+        inp.partial_sigs.insert(w.w.pks[0], ds.ecdsa());
+        script.to_p2wsh()
+    };
+    let prev = prev_tx(&spk, 0, 1, 9);
+    inp.witness_utxo = Some(prev.output[0].clone());
+    let tx = Transaction {
+        version: bitcoin::transaction::Version::TWO,
+        lock_time: absolute::LockTime::ZERO,
+        input: vec![TxIn { previous_output: OutPoint { txid: prev.compute_txid(), vout: 0 }, script_sig: ScriptBuf::new(), sequence: Sequence::from_consensus(0xffff_fffd), witness: Witness::new() }],
+        output: vec![TxOut { value: Amount::from_sat(1000), script_pubkey: ScriptBuf::from_bytes(vec![0x51]) }],
+    };
+    let mut psbt = Psbt::from_unsigned_tx(tx).ok()?;
+    psbt.inputs[0] = inp;
+    Some((psbt.serialize(), label))
+}
+
+pub const N_PSBT_DEEP: u64 = 14;
+
 pub fn g_psbt(w: &RWorld, rng: &mut Rng, _idx: u64) -> (Input, &'static str) {
+    if _idx < N_PSBT_DEEP {
+        // (shape, depth, taproot?) : IF-bearing shapes, the pk-cored andor chain is finalizable
+        let table: [(usize, usize, bool); 14] = [
+            (3, 403, true), (3, 1_000, true), (3, 10_000, true), (3, 50_000, true), (2, 1_000, true), (2, 10_000, true),
+            (0, 1_000, true), (1, 1_000, true), (13, 1_000, true), (12, 1_000, true), (11, 1_000, true), (18, 1_000, true),
+            (2, 403, false), (2, 1_000, false),
+        ];
+        let (shape, depth, tap) = table[_idx as usize];
+        if let Some((bytes, label)) = deep_psbt(w, shape, depth, tap) {
+            return (Input::Psbt { psbt: bytes, idx: 0, desc: String::new() }, label);
+        }
+    }
     let n_in = 1 + rng.below(3) as usize;
     let n_out = 1 + rng.below(2) as usize;
     let mut descs = Vec::new();
@@ -432,6 +481,21 @@ pub fn psbt_shrink(bytes: &[u8]) -> Vec<Vec<u8>> {
     out
 }
 
+/// ORACLE without a crash: a finalized input carries the script the finalizer decoded; its IF
+/// nesting (harness's own scan) bounds the depth of that miniscript from below
+fn finalized_depth_oracle(p: &Psbt) {
+    for inp in p.inputs.iter() {
+        if let Some(wit) = inp.final_script_witness.as_ref() {
+            for e in wit.iter() {
+                let d = if_depth(e);
+                if d > super::DEPTH_LIMIT {
+                    panic!("VERIF-ORACLE depth guard bypassed: the PSBT finalizer accepted a script whose IF nesting is {} deep, limit {}", d, super::DEPTH_LIMIT);
+                }
+            }
+        }
+    }
+}
+
 pub fn run_psbt(w: &RWorld, i: &Input) -> Obs {
     let (bytes, idx, desc) = match i {
         Input::Psbt { psbt, idx, desc } => (psbt, *idx, desc),
@@ -454,7 +518,9 @@ pub fn run_psbt(w: &RWorld, i: &Input) -> Obs {
     };
     {
         let mut p = psbt.clone();
-        match p.finalize_mut(secp) {
+        let r = p.finalize_mut(secp);
+        finalized_depth_oracle(&p);
+        match r {
             Ok(()) => {
                 note("finalize_mut", true, String::new());
                 match p.extract(secp) {
@@ -481,6 +547,7 @@ pub fn run_psbt(w: &RWorld, i: &Input) -> Obs {
             Ok(()) => note("finalize_mall_mut", true, String::new()),
             Err(es) => note("finalize_mall_mut", false, es.first().map(err_class).unwrap_or_default()),
         }
+        finalized_depth_oracle(&p);
     }
     for k in [idx, 0, n.saturating_sub(1), n] {
         let mut p = psbt.clone();
